@@ -1,4 +1,5 @@
 """C01: decided on the L1 machine (theorem Ivy.Props.C01.monitor_accepts) + T-replay correspondence."""
+import os, re
 from . import l1, loopgen
 PROP = "C01"
 LEANCHECK_MODULES = ["Ivy.L1.Machine", "Ivy.L1.Exec", "Ivy.Mon.C01", "Ivy.L1.ProofsC01", "Ivy.Props.C01"]
@@ -14,6 +15,9 @@ RETRACT_RULE = ("; plus the ENUMERATED family 'retract' (264 scenarios per run, 
                 "freed, recycled, same struct re-registered, bands dropped and re-added) x both arrival orders, and failed registration attempts "
                 "followed by a successful registration of the same, not re-initialised, struct")
 
+OTHER_RULE = ("; plus, for the object kinds outside the loop machine (signal interests, child-wait interests, inotify watches/instances), the scenario "
+              "families of C10, C11 and C20 with the after-unregister / use-after-free part of their oracles")
+
 
 def nontrivial(log):
     inside = None
@@ -26,13 +30,45 @@ def nontrivial(log):
     return False
 
 
+# object kinds that do not live in the L1 machine: signal interests, child-wait interests, inotify watches/instances. Their own
+# checks (C10, C11, C20) run the real code with handlers that unregister and free themselves/each other; the part of their
+# oracles that says "no handler call, no memory access after unregister returned" is this property's statement for those kinds.
+OTHER_KINDS = [("c10", "signal interests"), ("c11", "child-wait interests"), ("c20", "inotify watches and instances")]
+AFTER_UNREG = re.compile(r"unregister|not registered|use-after-free|after the instance|freed", re.I)
+
+
 def run(tier, seed, proof):
-    return l1.run_property(PROP, tier, seed, proof, FAMILIES, MONS, SANS, nontrivial, RULE + RETRACT_RULE,
-                           extra_cases=lambda tier, seed: loopgen.retract_cases(seed))
+    res = l1.run_property(PROP, tier, seed, proof, FAMILIES, MONS, SANS, nontrivial, RULE + RETRACT_RULE + OTHER_RULE,
+                          extra_cases=lambda tier, seed: loopgen.retract_cases(seed))
+    import importlib
+    kinds = {}
+    for name, what in OTHER_KINDS:
+        if res.impl_violations:
+            break
+        mod = importlib.import_module("vlib." + name)
+        sub = mod.run(tier, seed, proof)
+        res.evaluations += sub.evaluations
+        res.nontrivial |= set(name + "-" + x for x in sub.nontrivial)
+        kinds[what] = sub.evaluations
+        for sig, msg, pth in sub.impl_violations:
+            if AFTER_UNREG.search(sig + " " + msg):
+                if pth and os.path.isfile(pth):
+                    txt = open(pth).read()
+                    open(pth, "w").write(f"# other-kind case (replayed by vlib/{name}.py)\n" + txt)
+                res.impl_violations.append((f"C01:{name}:" + sig, f"{what}: " + msg, pth))
+        for d, pth in sub.divergences:
+            res.divergences.append((f"{what} ({name} harness): " + d, pth))
+    res.extra["other_object_kinds_cases"] = kinds
+    return res
 
 
 def search(tier, seed, proof):
     return l1.search_property(PROP, tier, seed, FAMILIES[:1], MONS, SANS)
 
 
-replay = l1.replay
+def replay(path):
+    import importlib
+    m = re.search(r"# other-kind case \(replayed by vlib/(c\d+)\.py\)", open(path).read())
+    if m:
+        return importlib.import_module("vlib." + m.group(1)).replay(path)
+    return l1.replay(path)
